@@ -593,7 +593,6 @@ impl<'a> Ex<'a> {
             return Err(format!("only {} of {} scripted words were requested", base.cons, d));
         }
         if w < self.eps {
-            self.trunc += w;
             return Ok(Rc::new(Tree::Trunc));
         }
         if d >= self.maxdepth {
@@ -862,6 +861,15 @@ impl<'a> Ex<'a> {
     }
 }
 
+/// probability mass of the truncated branches (normalised piece probabilities)
+fn trunc_of(t: &Tree, p: f64) -> f64 {
+    match t {
+        Tree::Leaf(_) => 0.0,
+        Tree::Trunc => p,
+        Tree::Node { pieces, .. } => pieces.iter().map(|pc| pc.child.as_ref().map(|ch| trunc_of(ch, p * pc.prob)).unwrap_or(0.0)).sum(),
+    }
+}
+
 fn row_of(t: &Tree, p: f64, row: &mut HashMap<u32, f64>) {
     match t {
         Tree::Leaf(o) => *row.entry(*o).or_insert(0.0) += p,
@@ -914,7 +922,7 @@ fn measure(sys: &dyn Sys, intern: &mut Interner, max_cfgs: usize, mc: u64, seed:
             let mut ex = Ex { sys, cfg: cfg.clone(), k, intern, cache: &mut cache, ct: &mut ct, eps: spec.eps, trunc: 0.0, maxdepth: if spec.eps > 0.0 { 400 } else { 96 }, budget: 100_000 };
             let tree = ex.explore(&mut vec![], 1.0).map_err(|e| format!("kernel {} from {}: {}", spec.name, cfg.show(), e))?;
             ex.mc_validate(&tree, mc, seed ^ (id as u64) << 8 ^ k as u64).map_err(|e| format!("kernel {} from {}: {}", spec.name, cfg.show(), e))?;
-            let tr = ex.trunc;
+            let tr = trunc_of(&tree, 1.0);
             let mut row = HashMap::new();
             row_of(&tree, 1.0, &mut row);
             for (o, p) in row.iter() {
@@ -1199,7 +1207,7 @@ fn exchange(a: f64, a2: f64, b: f64, c: f64, p: f64) -> Vec<f64> {
 fn generic_systems(thorough: bool) -> Vec<GenSys> {
     let mut v = vec![];
     let k = |name: &'static str, db: bool, eps: f64| KSpec { name, db, compose: None, eps };
-    let eps_loop = 1e-7;
+    let eps_loop: f64 = std::env::var("KERN_EPS").ok().and_then(|s| s.parse().ok()).unwrap_or(1e-4);
     // (1) exchange-type 2-site matrix with loop updates
     for l in if thorough { vec![1usize, 2, 3] } else { vec![1usize, 2] } {
         v.push(GenSys {
